@@ -86,7 +86,7 @@ impl ChainStorage {
             #[cfg(rbp_verif)]
             let res = self.verify(&block, height);
             #[cfg(rbp_verif)]
-            crate::verif::ev("verify", &format!("\"h\":{},\"ok\":{}", height, res.is_ok()));
+            crate::verif::ev("verify", &format!("\"h\":{},\"ok\":{},\"mr_ok\":{},\"hash\":\"{}\"", height, res.is_ok(), block.compute_merkle_root() == block.header.value.merkle_root, block.header.hash));
             self.verify(&block, height)?;
         }
 
